@@ -145,6 +145,7 @@ def uistAd : Adapter (PU.Uist String Float) (UQ String Float) (PU.Order String F
   ops := uistOps
   parseIns := fun t => match t with
     | [ty, sym, sh, pr] => some (Drv.Uist.parseOrder ty sym sh pr)
+    | [ty, sym, sh, pr, id] => some { Drv.Uist.parseOrder ty sym sh pr with id := some id.toNat! }
     | _ => none
   parseDel := fun t => match t with | [id] => some id.toNat! | _ => none
   bufOf := fun e => e.buffer
